@@ -382,6 +382,51 @@ def _mcp_check(tier, seed):
         ok3, _, _ = validate(dpath, 'dropped-response-self-test')
         if ok3 and len(drop) < len(events):
             raise ToolError('trace specification does not bind: a dropped response was accepted')
+        # ---- C07 through the MCP front-end: 5/6 April and leap days; expected tax years come from MC_Calendar (TLC)
+        cal = tlc('MC_Calendar', os.path.join('cfg', 'MC_Calendar.cfg'), workers=8, timeout=3000)
+        want = {}
+        with open(cal['out'], errors='replace') as f:
+            for line in f:
+                if line.startswith('<<"DAY", '):
+                    p_ = line.strip()[len('<<"DAY", '):-2].split(', ')
+                    if p_[5] == 'TRUE' and 2015 <= int(p_[1]) <= 2025 and (p_[2], p_[3]) in (('4', '5'), ('4', '6'), ('2', '29'), ('12', '31'), ('1', '1')):
+                        want[f'{int(p_[1]):04d}-{int(p_[2]):02d}-{int(p_[3]):02d}'] = int(p_[4])
+        bcls, order = dict(cls), []
+        for d, ty in sorted(want.items()):
+            if not (2014 <= ty <= 2025):
+                continue
+            led = f'{int(d[:4]) - 1}-06-01 BUY VOD 10 @ 1\n{d} SELL VOD 2 @ 3\n'
+            bcls[f'bx_{d}'] = call('explain_matching', {'transactions': led, 'disposal_date': d, 'ticker': 'VOD'})
+            bcls[f'by_{d}'] = call('calculate_report', {'transactions': led, 'year': ty})
+            bcls[f'bp_{d}'] = call('calculate_report', {'transactions': led, 'year': ty - 1}) if ty - 1 >= 2014 else None
+            order.append(d)
+        bcls = {k: v for k, v in bcls.items() if v is not None}
+        script = []
+        for d in order:
+            script += [('send', k) for k in (f'bx_{d}', f'by_{d}', f'bp_{d}') if k in bcls]
+        ev, resp = play(root, 'boundary', script, bcls, patience=40)
+        sent = {e['id']: e['class'] for e in ev if e['event'] == 'Send'}
+        nb = 0
+        for rid, k in sent.items():
+            if not k.startswith('b') or k[1] not in 'xyp' or k[2] != '_':
+                continue
+            nb += 1
+            d = k[3:]
+            if rid not in resp:
+                findings.append({'prop': 'C20', 'kind': 'unanswered', 'case': 0, 'input': k, 'data': {}, 'detail': f'boundary request {k} was never answered'})
+                continue
+            kind_, _ = digest_of(resp[rid])
+            txt = resp[rid].get('result', {}).get('content', [{}])[0].get('text', '') if kind_ == 'result' else ''
+            if k.startswith('bx_') and kind_ != 'result':
+                findings.append({'prop': 'C07', 'kind': 'mcp_explain_boundary', 'case': 0, 'input': d, 'data': {},
+                                 'detail': f'explain_matching cannot find the disposal of {d} (tax year {want[d]}/{(want[d] + 1) % 100:02d}): {json.dumps(resp[rid])[:200]}'})
+            if k.startswith('by_') and (kind_ != 'result' or f'"date": "{d}"' not in txt):
+                findings.append({'prop': 'C07', 'kind': 'mcp_year_boundary', 'case': 0, 'input': d, 'data': {},
+                                 'detail': f'calculate_report(year={want[d]}) does not list the disposal of {d}'})
+            if k.startswith('bp_') and kind_ == 'result' and f'"date": "{d}"' in txt:
+                findings.append({'prop': 'C07', 'kind': 'mcp_year_boundary', 'case': 0, 'input': d, 'data': {},
+                                 'detail': f'calculate_report(year={want[d] - 1}) lists the disposal of {d}, which belongs to {want[d]}'})
+        log(f'[mcp] {nb} boundary-date requests (5/6 April, leap days, year ends 2015-2025) through the real server')
         # ---- known: a panicking calculation is never answered
         ev, resp = play(root, 'ovf', [('send', 'overflow'), ('send', 'calc_all')], cls, patience=6)
         if 2 not in resp:
